@@ -17,8 +17,12 @@ import (
 	"time"
 
 	"github.com/coredhcp/coredhcp/handler"
+	"github.com/coredhcp/coredhcp/plugins/dns"
+	"github.com/coredhcp/coredhcp/plugins/ipv6only"
 	"github.com/coredhcp/coredhcp/plugins/leasetime"
+	"github.com/coredhcp/coredhcp/plugins/netmask"
 	rangeplugin "github.com/coredhcp/coredhcp/plugins/range"
+	"github.com/coredhcp/coredhcp/plugins/router"
 	"github.com/insomniacslk/dhcp/dhcpv4"
 
 	"verif/internal/fw"
@@ -52,6 +56,9 @@ type rangeCase struct {
 	// as a PXE ROM or a bridging loop does) five times, this many milliseconds apart (< 1 s); every copy's reply
 	// promises a full lease from then on, so the stored expiry must follow every copy
 	FastRepeat int `json:"fast_repeat_ms,omitempty"`
+	// After: built-in plugins placed behind range in the chain (an order the documentation advises against for
+	// ipv6only, but one the server accepts): whatever they do to the response, the bindings are range's
+	After []string `json:"after,omitempty"`
 	// LeaseTimeBefore: the lease_time plugin (with this value) is placed before range in the chain, as in
 	// the shipped example configuration; range still decides the lease it promises and stores
 	LeaseTimeBefore string `json:"lease_time_before,omitempty"`
@@ -153,6 +160,14 @@ func (rangeEngine) Gen(rng *rand.Rand, tier string, i int) any {
 		c.FastRepeat = 550 + rng.Intn(400)
 		c.Lease = []string{"10m", "1h", "24h", "60s"}[rng.Intn(4)]
 	}
+	if i%4 == 1 {
+		for _, n := range []string{"netmask", "ipv6only", "router", "dns"} {
+			if rng.Intn(2) == 0 {
+				c.After = append(c.After, n)
+			}
+		}
+		rng.Shuffle(len(c.After), func(a, b int) { c.After[a], c.After[b] = c.After[b], c.After[a] })
+	}
 	if i%5 == 3 {
 		c.LeaseTimeBefore = []string{"3600s", "24h", "30s", "86400s"}[rng.Intn(4)]
 	}
@@ -230,7 +245,11 @@ func (r *rangeRun) request(cl rangeClient, mt byte) []byte {
 	if mt == 3 {
 		opts = append(opts, pkt.O4(50, 10, 1, 2, 3))
 	}
-	opts = append(opts, pkt.O4(55, 1, 3, 6, 51))
+	if len(r.c.After) > 0 && r.xid%3 == 0 {
+		opts = append(opts, pkt.O4(55, 1, 3, 6, 51, 108)) // a client that prefers IPv6-only operation (RFC 8925)
+	} else {
+		opts = append(opts, pkt.O4(55, 1, 3, 6, 51))
+	}
 	p := pkt.Request4(r.xid, mac, mt, opts...)
 	p.Gi = pkt.IP4("10.9.9.9")
 	return p.Bytes()
@@ -343,6 +362,9 @@ func (rangeEngine) Run(ctx *fw.Ctx, cs any) {
 		}
 		if c.LockFaultAt == i && used > 0 {
 			r.lockFault(c.Clients[r.rng.Intn(used)])
+			if !r.stallFault(c.Clients[r.rng.Intn(used)], 100000+i) {
+				return
+			}
 			if used < len(c.Clients) {
 				r.lockFaultNew(c.Clients[used])
 				if _, ok := r.m.Bind[clientKey(mustHex(c.Clients[used].Mac))]; ok {
@@ -726,15 +748,32 @@ func repStr(rep *dhcpv4.DHCPv4) string {
 // chain places the lease_time plugin before range when the case asks for it. lease_time keeps its value
 // in a package global; cases run one after the other in a worker, and the value is set right here.
 func (r *rangeRun) chain(h handler.Handler4) []handler.Handler4 {
-	if r.c.LeaseTimeBefore == "" {
-		return []handler.Handler4{h}
+	out := []handler.Handler4{h}
+	if r.c.LeaseTimeBefore != "" {
+		if lt, err := leasetime.Plugin.Setup4(r.c.LeaseTimeBefore); err == nil {
+			r.ctx.Count("range.chains_with_lease_time_first", 1)
+			out = []handler.Handler4{lt, h}
+		}
 	}
-	lt, err := leasetime.Plugin.Setup4(r.c.LeaseTimeBefore)
-	if err != nil {
-		return []handler.Handler4{h}
+	for _, n := range r.c.After {
+		var ah handler.Handler4
+		var err error
+		switch n {
+		case "netmask":
+			ah, err = netmask.Plugin.Setup4("255.255.255.0")
+		case "ipv6only":
+			ah, err = ipv6only.Plugin.Setup4("300s")
+		case "router":
+			ah, err = router.Plugin.Setup4("10.9.9.1")
+		case "dns":
+			ah, err = dns.Plugin.Setup4("10.9.9.2", "10.9.9.3")
+		}
+		if err == nil && ah != nil {
+			out = append(out, ah)
+			r.ctx.Count("range.chains_with_plugins_behind_range", 1)
+		}
 	}
-	r.ctx.Count("range.chains_with_lease_time_first", 1)
-	return []handler.Handler4{lt, h}
+	return out
 }
 
 // lockFault: a renewal while the lease database cannot be written (another connection holds the write
@@ -801,6 +840,58 @@ func (r *rangeRun) lockFaultNew(cl rangeClient) {
 		}
 	}
 	delete(r.promise, key)
+}
+
+// stallFault: another connection holds the write lock of the lease database for 3.5 s - less than sqlite's
+// busy timeout, so no write fails - while a bound client sends a request and, 1.7 s later, another one. Both
+// replies promise a lease from their own time on; when everything has drained, the stored expiry must cover
+// the promise made last.
+func (r *rangeRun) stallFault(cl rangeClient, step int) bool {
+	mac, _ := hex.DecodeString(cl.Mac)
+	key := clientKey(mac)
+	if _, ok := r.m.Bind[key]; !ok || r.lease < 10*time.Second {
+		return true
+	}
+	db, err := sql.Open("sqlite3", "file:"+r.db)
+	if err != nil {
+		return true
+	}
+	defer db.Close()
+	conn, err := db.Conn(context.Background())
+	if err != nil {
+		return true
+	}
+	defer conn.Close()
+	if _, err := conn.ExecContext(context.Background(), "BEGIN IMMEDIATE"); err != nil {
+		return true
+	}
+	req1, req2 := r.request(cl, 3), r.request(cl, 3)
+	r.s.Take()
+	var wg sync.WaitGroup
+	wg.Add(2)
+	go func() { defer wg.Done(); r.s.l.Inject(req1, fakeIf, relayPeer4) }()
+	time.Sleep(1700 * time.Millisecond)
+	t2 := time.Now()
+	go func() { defer wg.Done(); r.s.l.Inject(req2, fakeIf, relayPeer4) }()
+	time.Sleep(1800 * time.Millisecond)
+	conn.ExecContext(context.Background(), "ROLLBACK")
+	wg.Wait()
+	caps := r.s.Take()
+	r.tr("two REQUESTs of %s, 1.7 s apart, while the database was write-locked for 3.5 s -> %d replies", key, len(caps))
+	r.ctx.Count("range.stall_faults", 1)
+	for _, cp := range caps {
+		if rep, err := dhcpv4.FromBytes(cp.Payload); err == nil {
+			if sig, msg := r.m.Judge(key, true, yi(rep)); sig != "" {
+				r.ctx.Viol("C02", sig, "requests during a stalled database: %s\n  last: %v", msg, r.trace)
+			}
+		}
+	}
+	if len(caps) == 2 {
+		r.promise[key] = t2.Add(r.lease)
+	} else {
+		delete(r.promise, key)
+	}
+	return r.crashPoint(step)
 }
 
 func (r *rangeRun) lockFault(cl rangeClient) {
